@@ -832,6 +832,18 @@ impl Search {
         (self.info.best_move, self.info.best_score, self.info.seldepth)
     }
 
+    /// The order in which the search would try `moves` in the position with key `zkey` (what the
+    /// ordering iterator yields, given the cache as it is and these killer moves).
+    #[cfg(rce_verif)]
+    #[allow(dead_code)]
+    pub fn verif_order_moves(
+        moves: &[Ply],
+        zkey: crate::board::zkey::ZKey,
+        killers: &[Option<Ply>; info::MAX_KILLERS],
+    ) -> Vec<Ply> {
+        MoveOrderer::new(moves, zkey, killers).collect()
+    }
+
     /// The move of the bestmove line this search has sent, if it has sent one.
     #[cfg(rce_verif)]
     #[allow(dead_code)]
